@@ -5,7 +5,7 @@ import ast
 
 from ..program import AnalysisError, walk_local, dotted
 from ..analysis import Spec, src, class_const, const_value
-from ..rules import (inside, before, GWF, EXC, mpt, need_func, stores_to, raise_class,
+from ..rules import (positional_args, canon, inside, before, GWF, EXC, mpt, need_func, stores_to, raise_class,
                      parent_map, kw, is_const, eval_atom, UNKNOWN,
                      explicit_exits)
 from . import common
@@ -80,7 +80,8 @@ def comment_channel(prog, an, rep):
     for call in an.direct_calls(nu, Spec.func(sc.qname)):
         rep.evaluated()
         cparam = nu.params[2]
-        args = [src(a) for a in call.args]
+        bound = positional_args(nu, call) or []
+        args = [canon(nu, a) for _, a in bound]
         ok = len(args) == 4 and args[2] == 'str(%s)' % cparam and \
             args[3] == '%s.dont_repeat_if_in_history' % cparam
         rep.check(ok, 'C10.ARG.comment-channel', nu.qname + ': message and '
@@ -369,7 +370,7 @@ def defaults_copied(prog, an, rep):
                   'shared between jobs' % src(v), detail=src(v))
     it = [n for n in walk_local(f.node, include_root=False)
           if isinstance(n, ast.For)]
-    rep.check(len(it) == 1 and 'get_options()' in src(it[0].iter), R,
+    rep.check(len(it) == 1 and 'get_options()' in canon(f, it[0].iter), R,
               f.qname + ': every registered option is re-initialised',
               f.where(), 'init_settings no longer iterates get_options()')
     hc = need_func(an, GWF + '.handle_comments')
